@@ -334,6 +334,12 @@ def run_property(pid: str, tier: str, only=None, verbose=False) -> int:
                     if d["status"] == "ok" and len(samples) < 6 and d["witness"] is not None and (len(samples) < 2 or hash(str(d["witness"])) % 7 == seed % 7):
                         samples.append(dict(harness=hname, params=_js(params), witness=d["witness"], outputs=d["outputs"],
                                             obligations=[n for n, _ in d["obligations"]][:12]))
+            if sum(1 for v in violations if v["replay"].get("reproduced")) >= 10:
+                # enough reproduced counterexamples: stop exploring (the verdict is already "violated")
+                queue.clear()
+                for f in list(pending):
+                    f.cancel()
+                pending = {f: v for f, v in pending.items() if not f.cancelled()}
             submit()
         if timed_out:
             inconclusive_reasons.append(f"time budget of {budget}s exhausted with {len(queue) + len(pending)} subtrees unexplored")
